@@ -70,6 +70,8 @@ fn main() {
     // debugging aid only (never set by bin/check): override the scenario count
     let cases_override: Option<u64> =
         std::env::var("VMON_HIST_CASES").ok().and_then(|s| s.parse().ok());
+    // second event source: dropshot's own per-request log records
+    let cap = vmon::srv::enable_log_capture();
     let mut rep: Report = match args.engine.as_str() {
         "c16-disconnect" => {
             let total: u64 = cases_override.unwrap_or(if quick { 480 } else { 30_000 });
@@ -88,6 +90,32 @@ fn main() {
     // the `panicking` handler's panics are injected on purpose; anything else is
     // an unexpected panic somewhere in the process
     let mut injected = 0u64;
+    // "a started handler ends exactly one way": the server's own records must agree —
+    // no request id is recorded both as completed and as cancelled, and none twice
+    {
+        let completed = cap.completed.lock().unwrap();
+        let cancelled = cap.cancelled.lock().unwrap();
+        rep.count("server_log_records_seen", cap.records.load(std::sync::atomic::Ordering::Relaxed));
+        rep.count("server_log_request_completed", completed.len() as u64);
+        rep.count("server_log_request_cancelled", cancelled.len() as u64);
+        let mut n = 0;
+        for (id, c) in completed.iter() {
+            if cancelled.contains_key(id) {
+                n += 1;
+                if n <= 3 {
+                    rep.violate(
+                        format!("{}:server-records-request-both-completed-and-cancelled", rep.property),
+                        serde_json::json!({"request_id": id, "completed_records": c, "cancelled_records": cancelled[id]}),
+                    );
+                }
+            } else if *c > 1 {
+                rep.violate(
+                    format!("{}:server-records-request-completed-twice", rep.property),
+                    serde_json::json!({"request_id": id, "completed_records": c}),
+                );
+            }
+        }
+    }
     for p in vmon::panics::take_unexpected() {
         if p.message.starts_with(common::INJECTED) {
             injected += 1;
